@@ -1535,6 +1535,13 @@ func run(c *vh.Ctx) error {
 	if c.Res.Distribution == nil {
 		c.Res.Distribution = map[string]int{}
 	}
+	if b, err := os.ReadFile("/verif/coq/C40/Gen.v"); err == nil {
+		src := "ast"
+		if strings.Contains(string(b), `checks_source : string := "probe"`) {
+			src = "probe"
+		}
+		c.Res.Notes = append(c.Res.Notes, "checks_source = "+src+" (ast: ValidateHeader's check list read from the source; probe: derived from the error lists of probe headers)")
+	}
 	if c.Replay != "" {
 		b, err := os.ReadFile(c.Replay)
 		if err != nil {
